@@ -83,7 +83,7 @@ func newReqSym() *reqSym {
 	s2lens := []int{128, 129, 255, 256, 65535, 65536}
 	s3s := []string{"short", strings.Repeat("y", 127), "0"}
 	p := [3]string{s1s[r.Intn(len(s1s))], strings.Repeat("L", s2lens[r.Intn(len(s2lens))]), s3s[r.Intn(len(s3s))]}
-	s := &reqSym{ctl: newCtlSym(), str: map[string]string{"s0": "", "s1": p[0], "s2": p[1], "s3": p[2],
+	s := &reqSym{ctl: newCtlSym(), str: map[string]string{"s0": "", "s1": p[0], "s2": p[1], "s3": p[2], "s4": " ou=people, dc=example , dc=org ",
 		"n1": "1.3.6.1.4.1.4203.1.11.3", "n2": "1.3.6.1.4.1.4203.1.11.1"}, rstr: map[string]string{}, ids: map[string]int64{}, rids: map[int64]string{},
 		filters: filterCorpus, fbytes: map[string]string{}}
 	for t, oid := range ctlOIDs {
